@@ -257,7 +257,122 @@ def check_block_table(run, rule):
         for fd in facts.fns(T + "::find"):
             ok = any(callee_name(c) == "find" and path(c.get("recv")) == ("this", index) for c in ir.calls_in(fd["body"]))
             run.ob(rule, "%s:find-uses-index" % tag, ok, fd, fd["line"], "find() consults the reverse index", nontrivial=False)
+            # ... and only in states in which the index is complete.  The functions that enter elements into the index (after an
+            # append, when rebuilding after a copy) may do so under a condition on the table's size (a table that is scanned
+            # while it is small); find() may then rely on the index exactly for the sizes at which every element was entered.
+            # Tabulated over the size: lookup-guard(n) must imply store-guard(n) for every n >= 1.
+            verdict, why = index_complete_where_used(facts, T, fd, store, index, writers_of_index)
+            run.ob(rule, "%s:find-index-complete" % tag, verdict, fd, fd["line"], why)
     run.floor(rule, 28, "BlockTable obligations over all specialisations")
+
+
+def _eval_over_size(g, n, store, extra):
+    """guard formula g for a table of n elements; atoms about other state take the values in `extra` (a dict), None = unknown"""
+    h = g[0]
+    if h == "T":
+        return True
+    if h == "F":
+        return False
+    if h == "not":
+        r = _eval_over_size(g[1], n, store, extra)
+        return None if r is None else (not r)
+    if h in ("and", "or"):
+        rs = [_eval_over_size(x, n, store, extra) for x in g[1:]]
+        if h == "and":
+            return False if any(r is False for r in rs) else (None if any(r is None for r in rs) else True)
+        return True if any(r is True for r in rs) else (None if any(r is None for r in rs) else False)
+    if h == "nonempty" and g[1] == ("this", store):
+        return n > 0
+    if h in ("nonempty", "nz", "present"):
+        key = "%s:%s" % (h, g[1] if isinstance(g[1], str) else ir.path_str(g[1]))
+        return extra.get(key)
+    if h == "cmp":
+        return ir.eval_formula(g, {"size(this.%s)" % store: n})
+    return None
+
+
+def _other_atoms(g, store):
+    out = set()
+    for a in ir.walk_formula(g):
+        if a[0] in ("nonempty", "nz", "present") and not (a[0] == "nonempty" and a[1] == ("this", store)):
+            out.add("%s:%s" % (a[0], a[1] if isinstance(a[1], str) else ir.path_str(a[1])))
+    return out
+
+
+def index_complete_where_used(facts, T, fd, store, index, writers_of_index):
+    import itertools
+    # where find() relies on the index
+    envf = Env(fd["body"])
+    g_use = []
+    scans = False
+    for st, g, loops in ir.guarded_statements(fd["body"], envf):
+        if st.get("k") in ("IfCond", "SwitchHead"):
+            continue
+        if st.get("k") == "LoopHead":
+            continue
+        if any(callee_name(c) == "find" and path(c.get("recv")) == ("this", index) for c in ir.calls_in(st)):
+            g_use.append(g)
+    for lp in ir.walk(fd["body"]):
+        if lp.get("k") == "RangeFor" and path(lp.get("range")) == ("this", store):
+            scans = True
+    if not g_use:
+        return None, "find() does not consult the reverse index at all"
+    # where elements are entered: a store of one element, or a call of a function of the class that stores all of them
+    def stores_of(fn):
+        env_ = Env(fn["body"])
+        out = []
+        for st, g, loops in ir.guarded_statements(fn["body"], env_):
+            if st.get("k") in ("IfCond", "SwitchHead", "LoopHead"):
+                continue
+            for x in ir.walk(st):
+                if x.get("k") == "OpCall" and x.get("op") == "[]" and x.get("args") and path(x["args"][0]) == ("this", index):
+                    out.append(g)
+                elif x.get("k") == "MCall" and callee_name(x) in ("insert", "emplace", "insert_or_assign", "try_emplace") and path(x.get("recv")) == ("this", index):
+                    out.append(g)
+                elif x.get("k") == "MCall" and callee_qn(x) in writers_of_index and callee_qn(x) != fn["qn"] and unwrap_all_casts(x.get("recv") or {}).get("k") == "This":
+                    inner = [f_ for f_ in facts.fns(callee_qn(x)) if f_.get("cls") == T]
+                    for f_ in inner[:1]:
+                        for gi in stores_of(f_):
+                            out.append(ir.f_and(g, gi))
+        return out
+    problems = []
+    unknown = False
+    n_fn = 0
+    for fn in facts.functions.values():
+        if fn.get("cls") != T or fn["qn"] not in writers_of_index or fn.get("body") is None:
+            continue
+        gs = stores_of(fn)
+        if not gs:
+            continue
+        n_fn += 1
+        atoms = sorted(set().union(*[_other_atoms(g, store) for g in gs + g_use]))
+        if len(atoms) > 4:
+            unknown = True
+            continue
+        for n in range(1, 41):
+            use = None
+            for combo in itertools.product((False, True), repeat=len(atoms)):
+                extra = dict(zip(atoms, combo))
+                u = [_eval_over_size(g, n, store, extra) for g in g_use]
+                e = [_eval_over_size(g, n, store, extra) for g in gs]
+                if any(x is None for x in u + e):
+                    unknown = True
+                    continue
+                if any(u) and not any(e):
+                    problems.append((n, fn["qn"].split("::")[-1]))
+                    break
+    if problems:
+        n0, who = problems[0]
+        return False, "with %d element(s) in the table find() relies on %s, but %s() enters elements into it only under a condition that is false " \
+                      "for that size: a stored value is reported as absent and appended a second time" % (n0, index, who)
+    if unknown:
+        return None, "the conditions under which %s is maintained and consulted are not comparable as functions of the table's size" % index
+    if n_fn == 0:
+        return None, "no function of the class enters elements into %s" % index
+    partial = any(_eval_over_size(g, n, store, {}) is False for g in g_use for n in range(1, 41))
+    if partial and not scans:
+        return None, "find() consults %s only for some sizes and no scan of %s covers the others" % (index, store)
+    return True, "find() relies on %s only for table sizes at which every element has been entered (%d maintaining function(s), sizes 1..40 tabulated)" % (index, n_fn)
 
 
 def check_reinterpret(run, rule):
